@@ -9,8 +9,10 @@ for d in sorted(glob.glob('/verif/seeded/*')):
     except Exception:
         continue
     for p, c in r['checks'].items():
+        if c.get('control_failed'):
+            continue
         how = []
-        if c['broken_obligations']:
+        if c.get('broken_obligations'):
             names = []
             for b in c['broken_obligations']:
                 t = b.split('BROKEN obligation ')[1].split(' ::')[0]
